@@ -170,6 +170,11 @@ def run(v, tier):
     cases = machine.replay_steps(pairs)
     v.sample({'pre_stack': cases[-1]['stack'], 'ins': cases[-1]['ins'], 'out': cases[-1]['out']})
     report(v, validate(v, 'c01-reach-trace', cases), 'spec-explored transition')
+    # theory-relative soundness: memory pre-populated with the axiom of a small valid theory (s0 -> s1)
+    trans_g, _ = reach(v, 'c01-reach-theory', 'AlphaTheory', 'GammaSmall', 4 if quick else 6, True, carrier=2)
+    g_ax = [pi2v.IMP(pi2v.SYM(0), pi2v.SYM(1))]
+    pairs = [({'stack': t['stack'], 'memory': t['memory'], 'claims': [], 'phase': 'proof', 'gamma': g_ax}, t['ins']) for t in trans_g]
+    report(v, validate(v, 'c01-reach-theory-trace', machine.replay_steps(pairs)), 'spec-explored transition (theory s0 -> s1)')
     indstep(v, quick)
     # (A): deeper, directed alphabet, no export
     _, calpha = reach(v, 'c01-reach-capture', 'AlphaCapture', 'GammaEmpty', 8 if quick else 10, False)
